@@ -14,7 +14,8 @@ void __CPROVER_assume(bool) noexcept;
 void __CPROVER_assert(bool, const char *) noexcept;
 void vp_global_ctors() noexcept;   // runs the TU's static initialisers (engines); no-op natively (already run)
 bool vp_false() noexcept;          // opaque 'false'
-void vp_note(const char *tag, unsigned long v) noexcept;   // trace value for evidence / replay comparison
+void vp_note(const char *tag, unsigned long v) noexcept;
+unsigned long vp_concretize(unsigned long v) noexcept;      // engine B: continue with one path per feasible value of v; identity elsewhere   // trace value for evidence / replay comparison
 }
 #define VP_ASSERT(c, msg) __CPROVER_assert((c), msg)
 #define VP_ASSUME(c) __CPROVER_assume(c)
